@@ -17,6 +17,8 @@ structure Sess where
   szit   : Option (Nat × Nat × Nat × Bool) := none
   mem    : Mem := {}
   blind  : Bool := false
+  /-- `obs=sparse` was given on the constructor line: no content sweep except in `observe` -/
+  sparse : Bool := false
 
 def Sess.stk (s : Sess) (k : Nat) : Option Stack := (s.slots.getD k none)
 def Sess.lst (s : Sess) (k : Nat) : Option (List Nat) := (s.sslots.getD k none)
@@ -44,8 +46,10 @@ def physM (s : Sess) : String :=
   " ".intercalate parts ++ its ++ zs
 def invAll (s : Sess) : Bool := s.slots.all fun o => match o with | none => true | some a => decide a.Inv
 
-def fin (s : Sess) (hdS hdM : String) : Sess × String × String :=
-  (s, s!"S {hdS}{obsS s}", s!"M {hdM}{obsM s} | {physM s} | {fmtMem s.mem} | {fmtFlags (invAll s) s.mem}")
+def fin (s : Sess) (hdS hdM : String) (sweep : Bool := false) : Sess × String × String :=
+  let oS := if s.sparse && !sweep then "" else obsS s
+  let oM := if s.sparse && !sweep then "" else obsM s
+  (s, s!"S {hdS}{oS}", s!"M {hdM}{oM} | {physM s} | {fmtMem s.mem} | {fmtFlags (invAll s) s.mem}")
 
 def Sess.dropSlot (s : Sess) (k : Nat) : Sess :=
   let s := (s.setStk k none).setLst k none
@@ -80,7 +84,8 @@ def step (s : Sess) (c : Cmd) : Sess × String × String :=
     let (cap, _) := confOf c (c.op == "new")
     if 2 ^ 24 < cap ∧ cap * 8 ≤ 2 ^ 40 then ({ blind := true }, "S ?", "M ?") else
     let (st, r, m, sst) := build (c.op == "new") m
-    let s' : Sess := { slots := [r, none, none, none], sslots := [if sst = .ok then some [] else none, none, none, none], mem := m }
+    let s' : Sess := { slots := [r, none, none, none], sslots := [if sst = .ok then some [] else none, none, none, none], mem := m,
+                       sparse := c.str "obs" == some "sparse" }
     fin s' (fmtStat sst) (fmtStat st)
   | _ =>
   if s.blind then (s, "S ?", "M ?") else
@@ -90,6 +95,7 @@ def step (s : Sess) (c : Cmd) : Sess × String × String :=
   let s := { s with mem := m }
   let msg (t : String) := fin s s!"st=- {t}" s!"st=- {t}"
   match c.op with
+  | "observe" => fin s "st=-" "st=-" true
   | "destroy" | "destroy_cb" =>
     let cb := c.op == "destroy_cb"
     let r := (List.range NSLOT).foldl (fun (acc : Sess × List Nat × List Nat) j =>
